@@ -323,13 +323,16 @@ def harness(cfgk, rel, can_view, outk, raises, guard, constk, p0state):
         rt, ra, rk = res[0]
         ctx.oblige(f"C03.result_wraps_kernel_output.{tag}", len(ra) == 1 and ra[0] is op_out and rk.get("copy") is False and rk.get("_creator") is inst, **meta)
         # ---- C04.base -------------------------------------------------------------------------------------------------
+        # (from the property, not from the code:) the result of a view-capable op is a view of the first array/tensor operand whose memory it
+        # shares -- it IS that operand's array object (NumPy hands the argument back for some no-ops, e.g. squeeze without unit axes), or NumPy
+        # reports that array, or the array that one is a view of, as its .base
         exp_parent = None
-        if can_view and op_out.base is not None:
+        if can_view:
             for o, tv in zip(operands, tensor_vars):
                 if not isinstance(o, (SObj, Arr)):
                     continue
                 d = tv.fields["data"]
-                if op_out.base is d or (d.base is not None and op_out.base is d.base) or op_out is d:
+                if op_out is d or (op_out.base is not None and (op_out.base is d or (d.base is not None and op_out.base is d.base))):
                     exp_parent = tv
                     break
         if exp_parent is None:
